@@ -5,6 +5,7 @@ From Coq Require Import List Arith Bool NArith ZArith String.
 From AV Require Import model.C06_model proofs.C06_paging proofs.C06_index proofs.C06_sweep proofs.C06_small.
 From AV Require Import model.C06_unix proofs.C06_unix_proofs.
 From AV Require Import model.C05_model model.C06_mounts proofs.C06_mounts_proofs.
+From AV Require Import model.C06_azure proofs.C06_azure_proofs.
 Import ListNotations.
 
 (* ---- (a) paging ---------------------------------------------------------------------------------- *)
@@ -137,6 +138,29 @@ Theorem C06_unix_forgetful_variant_refuted :
   get_index body <> None /\ snd (unix_index "" w_forget) = false /\ get_index (unix_response "" w_forget) = None.
 Proof. exact forgetful_variant_refuted. Qed.
 Print Assumptions C06_unix_forgetful_variant_refuted.
+
+(* ---- (c'') an Azure blob volume behind handleIndex (model/C06_azure.v = azure_blob_volume.go IndexTo, listBlobs) ---- *)
+
+(* IndexTo returns nil exactly when every page of the listing arrived within ListBlobsMaxAttempts requests (a "503
+   ServerBusy" answer is retried, another error is not), and then the response is the complete index; a page that does
+   not arrive - after any number of pages that did - leaves the response without end marker: both readers reject it *)
+Theorem C06_azure_partial_listing_is_rejected : forall n pages,
+  (snd (az_index n pages) = true <-> forall p, In p pages -> page_arrives n (p_atts p) = true) /\
+  (snd (az_index n pages) = true -> az_response n pages = render_index (List.concat (map p_entries pages))) /\
+  (forall p, In p pages -> page_arrives n (p_atts p) = false -> forallb wf_entry (fst (az_index n pages)) = true ->
+     (exists err, parse_index (az_response n pages) = inl err) /\ get_index (az_response n pages) = None).
+Proof.
+  intros n pages. split; [apply az_index_ok_iff|]. split; [apply az_complete_index_response|intros p; apply az_partial_index_rejected].
+Qed.
+Print Assumptions C06_azure_partial_listing_is_rejected.
+
+(* regression witness: a retry helper that hands back an empty page without error when every attempt was "busy" *)
+Theorem C06_azure_swallowed_busy_variant_refuted :
+  snd (az_index_swallow 2 w_busy) = true /\ snd (az_index 2 w_busy) = false /\
+  get_index (handle_index [{| v_text := render_lines (fst (az_index_swallow 2 w_busy)); v_ok := snd (az_index_swallow 2 w_busy) |}]) <> None /\
+  get_index (az_response 2 w_busy) = None.
+Proof. exact swallow_variant_refuted. Qed.
+Print Assumptions C06_azure_swallowed_busy_variant_refuted.
 
 (* ---- (d') which indexes a sweep fetches (model/C06_mounts.v; cleanupMounts = model/C05_model.v cleanup) -------- *)
 
